@@ -10,6 +10,7 @@ import (
 	"fmt"
 	"math/big"
 	"os"
+	"strings"
 	"sync"
 	"time"
 )
@@ -365,3 +366,34 @@ func WatchSharedWrites() {}
 // LocksHeld (engine): how many mutexes (read or write) the calling path holds. Natively 0: the
 // twin probes liveness instead.
 func LocksHeld() int { return 0 }
+
+// extraClaims returns the claims recorded for the token of this name as inputs
+// "<token>-claim-<claim>-present" (bool) and "<token>-claim-<claim>" (string).
+func extraClaims(token string) map[string]string {
+	mu.Lock()
+	defer mu.Unlock()
+	out := map[string]string{}
+	if cex == nil {
+		return out
+	}
+	prefix := token + "-claim-"
+	present := map[string]bool{}
+	vals := map[string]string{}
+	for _, in := range cex.Inputs {
+		if !strings.HasPrefix(in.Name, prefix) {
+			continue
+		}
+		rest := strings.TrimPrefix(in.Name, prefix)
+		if strings.HasSuffix(rest, "-present") {
+			present[strings.TrimSuffix(rest, "-present")] = in.Bool
+		} else {
+			vals[rest] = string(in.Bytes)
+		}
+	}
+	for c, p := range present {
+		if p {
+			out[c] = vals[c]
+		}
+	}
+	return out
+}
